@@ -22,6 +22,7 @@ import (
 	"math/rand"
 	"reflect"
 	"sort"
+	"strconv"
 	"strings"
 IMPORTS
 )
@@ -267,6 +268,172 @@ func countHands(v reflect.Value) int {
 	return n
 }
 
+
+// ---- correspondence with the Coq model: values as trees whose reference nodes carry the
+// identity of their storage; types as the generator sees them ----
+func atomS(s string) string {
+	var b strings.Builder
+	b.WriteByte('<')
+	for i, r := range []rune(s) {
+		if i > 0 {
+			b.WriteByte(' ')
+		}
+		b.WriteString(strconv.Itoa(int(r)))
+	}
+	b.WriteByte('>')
+	return b.String()
+}
+func numS(n int) string { return "<" + strconv.Itoa(n) + ">" }
+
+type tySer struct {
+	ids   map[reflect.Type]int
+	decls []string
+}
+
+func (t *tySer) ty(rt reflect.Type) string {
+	named := func(mk func() string) string {
+		if id, ok := t.ids[rt]; ok {
+			return "(" + atomS("named") + " " + numS(id) + ")"
+		}
+		id := len(t.ids) + 1
+		t.ids[rt] = id
+		t.decls = append(t.decls, "") // reserve the slot: declaration order = id order
+		t.decls[id-1] = "(" + numS(id) + " " + mk() + ")"
+		return "(" + atomS("named") + " " + numS(id) + ")"
+	}
+	switch rt.Kind() {
+	case reflect.Ptr:
+		return "(" + atomS("ptr") + " " + t.ty(rt.Elem()) + ")"
+	case reflect.Slice:
+		if rt.Name() != "" {
+			return named(func() string { return atomS("def") + " (" + atomS("slice") + " " + t.ty(rt.Elem()) + ")" })
+		}
+		return "(" + atomS("slice") + " " + t.ty(rt.Elem()) + ")"
+	case reflect.Map:
+		if rt.Name() != "" {
+			return named(func() string { return atomS("def") + " (" + atomS("map") + " " + t.ty(rt.Elem()) + ")" })
+		}
+		return "(" + atomS("map") + " " + t.ty(rt.Elem()) + ")"
+	case reflect.Array:
+		return "(" + atomS("array") + " " + t.ty(rt.Elem()) + ")"
+	case reflect.Struct:
+		return named(func() string {
+			var fs []string
+			for i := 0; i < rt.NumField(); i++ {
+				fs = append(fs, t.ty(rt.Field(i).Type))
+			}
+			hand := 0
+			if rt.Name() == "Hand" {
+				hand = 1
+			}
+			return atomS("struct") + " " + numS(hand) + " (" + strings.Join(fs, " ") + ")"
+		})
+	case reflect.Interface:
+		return "(" + atomS("iface") + ")"
+	}
+	return "(" + atomS("scalar") + ")"
+}
+
+type valSer struct {
+	ids    map[uintptr]int
+	intern map[string]int
+}
+
+func sortedKeys(v reflect.Value) []reflect.Value {
+	ks := v.MapKeys()
+	sort.Slice(ks, func(i, j int) bool { return fmt.Sprint(ks[i].Interface()) < fmt.Sprint(ks[j].Interface()) })
+	return ks
+}
+
+// assign=true: the original (every storage gets the next id); assign=false: the copy (ids erased
+// to 0, and the paths of the nodes whose storage is also storage of the original are collected)
+func (s *valSer) val(v reflect.Value, assign bool, path []int, shared *[][]int) string {
+	ref := func(kind int, addr uintptr, storage bool, kvs []string) string {
+		id := 0
+		if assign {
+			if storage {
+				if _, ok := s.ids[addr]; !ok {
+					s.ids[addr] = len(s.ids) + 1
+				}
+				id = s.ids[addr]
+			}
+		} else if _, ok := s.ids[addr]; ok && storage {
+			*shared = append(*shared, append([]int(nil), path...))
+		}
+		return "(" + atomS("ref") + " " + numS(kind) + " " + numS(id) + " (" + strings.Join(kvs, " ") + "))"
+	}
+	kv := func(k int, x reflect.Value) string {
+		return "(" + numS(k) + " " + s.val(x, assign, append(path, k), shared) + ")"
+	}
+	switch v.Kind() {
+	case reflect.Ptr:
+		if v.IsNil() {
+			return "(" + atomS("nil") + ")"
+		}
+		return ref(0, v.Pointer(), true, []string{kv(0, v.Elem())})
+	case reflect.Slice:
+		if v.IsNil() {
+			return "(" + atomS("nil") + ")"
+		}
+		var kvs []string
+		for i := 0; i < v.Len(); i++ {
+			kvs = append(kvs, kv(i, v.Index(i)))
+		}
+		return ref(1, v.Pointer(), v.Len() > 0, kvs)
+	case reflect.Map:
+		if v.IsNil() {
+			return "(" + atomS("nil") + ")"
+		}
+		var kvs []string
+		for i, k := range sortedKeys(v) {
+			kvs = append(kvs, "("+numS(s.scalar(k))+" "+s.val(v.MapIndex(k), assign, append(path, s.scalar(k)), shared)+")")
+			_ = i
+		}
+		return ref(2, v.Pointer(), true, kvs)
+	case reflect.Interface:
+		if v.IsNil() {
+			return "(" + atomS("nil") + ")"
+		}
+		d := v.Elem() // *Impl
+		return ref(3, d.Pointer(), true, []string{kv(0, d.Elem())})
+	case reflect.Struct, reflect.Array:
+		var fs []string
+		n := v.Len
+		if v.Kind() == reflect.Struct {
+			n = v.NumField
+		}
+		for i := 0; i < n(); i++ {
+			var x reflect.Value
+			if v.Kind() == reflect.Struct {
+				x = v.Field(i)
+			} else {
+				x = v.Index(i)
+			}
+			fs = append(fs, s.val(x, assign, append(path, i), shared))
+		}
+		return "(" + atomS("rec") + " (" + strings.Join(fs, " ") + "))"
+	}
+	return "(" + atomS("s") + " " + numS(s.scalar(v)) + ")"
+}
+
+func (s *valSer) scalar(v reflect.Value) int {
+	key := fmt.Sprintf("%v", v.Interface())
+	if n, ok := s.intern[key]; ok {
+		return n
+	}
+	s.intern[key] = len(s.intern)
+	return s.intern[key]
+}
+
+func pathLess(a, b []int) bool {
+	for i := 0; i < len(a) && i < len(b); i++ {
+		if a[i] != b[i] {
+			return a[i] < b[i]
+		}
+	}
+	return len(a) < len(b)
+}
+
 func main() {
 	r := rand.New(rand.NewSource(SEED))
 	for _, t := range tests {
@@ -296,6 +463,24 @@ func main() {
 					cp = reflect.New(pt.Elem())
 					cp.Elem().Set(res)
 				}
+			}
+			if k < NMODEL {
+				ts := &tySer{ids: map[reflect.Type]int{}}
+				tyS := ts.ty(pt.Elem())
+				vs := &valSer{ids: map[uintptr]int{}, intern: map[string]int{}}
+				in := vs.val(orig.Elem(), true, nil, nil)
+				var sh [][]int
+				out := vs.val(cp.Elem(), false, nil, &sh)
+				sort.Slice(sh, func(i, j int) bool { return pathLess(sh[i], sh[j]) })
+				var shS []string
+				for _, p := range sh {
+					var e []string
+					for _, i := range p {
+						e = append(e, numS(i))
+					}
+					shS = append(shS, "("+strings.Join(e, " ")+")")
+				}
+				fmt.Printf("CASE %s\t(%s %s %s)\t(%s (%s) %s)\n", t.name, "("+strings.Join(ts.decls, " ")+")", tyS, in, out, strings.Join(shS, " "), numS(handTotal()-before))
 			}
 			desc := fmt.Sprintf("%#v", orig.Elem().Interface())
 			if len(desc) > 300 {
@@ -438,7 +623,7 @@ func c16(g *Gen) {
 			}
 		}
 		newImpl += "\treturn reflect.Value{}\n}\n"
-		drvSrc := strings.NewReplacer("HANDS", strings.Join(hands, ", "), "IMPORTS", imports.String(), "TESTS", tests.String(), "SEED", fmt.Sprint(g.Seed+int64(i)), "NVALUES", fmt.Sprint(g.N(60, 300))).Replace(c16driver) + newImpl
+		drvSrc := strings.NewReplacer("HANDS", strings.Join(hands, ", "), "IMPORTS", imports.String(), "TESTS", tests.String(), "SEED", fmt.Sprint(g.Seed+int64(i)), "NVALUES", fmt.Sprint(g.N(60, 300)), "NMODEL", fmt.Sprint(g.N(12, 60))).Replace(c16driver) + newImpl
 		drv := filepath.Join(src, "ex.test", fmt.Sprintf("dc%d", i), "driver")
 		os.MkdirAll(drv, 0755)
 		os.WriteFile(filepath.Join(drv, "main.go"), []byte(drvSrc), 0644)
@@ -464,6 +649,18 @@ func c16(g *Gen) {
 		for _, l := range lines {
 			f := strings.SplitN(l, " ", 4)
 			switch f[0] {
+			case "CASE":
+				parts := strings.Split(strings.TrimPrefix(l, "CASE "), "\t")
+				if len(parts) == 3 {
+					c := append([]string{"model-copy"}, cls...)
+					if i := strings.LastIndex(parts[2], " <"); i < 4 || parts[2][i-3:i] != " ()" {
+						c = append(c, "model-shares")
+					}
+					if arrayRefTypes[parts[0]] {
+						c = append(c, "sig:array-of-references-field")
+					}
+					g.Emit("C16.copy", parts[1], parts[2], c...)
+				}
 			case "SELECT":
 				if f[2] != "ok" {
 					selBad = append(selBad, l)
